@@ -201,3 +201,45 @@ func c03TransmitOnce(ctx *core.Ctx, r *RT) {
 		ctx.Unresolved("C03.R15", "NATS client", "no publish in the NATS client transport")
 	}
 }
+
+// processOnce — a received request is handed to the processor once. In every
+// function of the runtime that reaches FProcessor.Process (directly, or
+// through one helper of the package) there is exactly one call site that does
+// so: a second one — "retry the reply" around a function that processes *and*
+// publishes — runs the user's handler twice for one request.
+func processOnce(ctx *core.Ctx, r *RT, rule string) {
+	isProcess := func(c ssax.Call) bool {
+		return c.Method != nil && c.Method.Name() == "Process" && ssax.TypeNamed(c.Common.Value.Type(), "", "FProcessor")
+	}
+	direct := map[*ssa.Function]bool{}
+	for _, fn := range r.Fns {
+		for _, c := range ssax.Calls(fn) {
+			if isProcess(c) {
+				direct[fn] = true
+			}
+		}
+	}
+	n := 0
+	for _, fn := range r.Fns {
+		if fn.Pkg != r.Pkg {
+			continue
+		}
+		sites := 0
+		var where []string
+		for _, c := range ssax.Calls(fn) {
+			if isProcess(c) || (c.Static != nil && direct[c.Static] && c.Static != fn) {
+				sites++
+				where = append(where, r.IPos(c.Instr))
+			}
+		}
+		if sites == 0 {
+			continue
+		}
+		n++
+		ctx.Check(sites == 1, rule, ssax.Name(fn)+" › one call site hands a request to the processor", fnPos(r, fn), "exactly one",
+			sprintf("%d call sites reach FProcessor.Process (%v): a request can be processed more than once — e.g. a retry of the step that processes and publishes — so the handler's side effects happen twice for one call", sites, where))
+	}
+	if n == 0 {
+		ctx.Unresolved(rule, "servers", "no function reaching FProcessor.Process found")
+	}
+}
